@@ -68,6 +68,11 @@ class Monitor:
 
     # ------------------------------------------------------------------ violations
     def violation(self, prop, check, mech, detail, store=None):
+        if getattr(self, "blind", None):
+            # a store of this environment no longer exposes the state the reference models are synchronised with
+            # (e.g. `ready_items` renamed): nothing observed here can be judged; the run is reported INCONCLUSIVE
+            self.counters["verdicts_withheld_store_internals_unreadable"] += 1
+            return
         key = (prop, check, mech)
         self.viol_count[key] += 1
         if self.viol_count[key] <= 2 and len(self.violations) < self.max_viol_details:
